@@ -233,7 +233,8 @@ Proof.
     destruct (tm_state st t) as [[]|]; split; reflexivity.
   - destruct (sess st s) as [t|]; [|split; reflexivity]. unfold tm_abort. cbn.
     destruct (tm_state st t) as [[]|]; split; reflexivity.
-  - split; reflexivity.
+  - destruct (sess st s) as [t|]; [|split; reflexivity]. unfold tm_abort. cbn.
+    destruct (tm_state st t) as [[]|]; split; reflexivity.
   - destruct (ctx st s) as [e0 t0]. unfold create_node_with_props.
     destruct (create_node_versioned st labels e0 t0) as [st1 id] eqn:E. cbn [fst snd canon bump].
     pose proof (fold_pres (fun s kv => set_node_property s id (fst kv) (snd kv))
@@ -410,11 +411,21 @@ Proof.
              destruct (pa_buf _ _ Hp s0 t0 H0) as [d0 [log0 [W1 W2]]]; exists d0, log0; (split; [exact W1|]);
              (destruct (Z.eqb_spec t0 t); [subst; exfalso; apply n; eapply i_inj; eauto|exact W2]).
         -- cbn. unfold upd. intros H0. destruct (Z.eqb_spec s0 s); [subst; congruence|]. apply (pa_buf _ _ Hp). exact H0.
-    + (* DropSession *)
-      constructor; try assumption; clear Hnb Heb Cn Ce Sn Se; cbn [step spec_step fst] in *; cbn.
-      * intros s0. unfold upd. destruct (Z.eqb_spec s0 s); [tauto|hp Hp].
-      * hp Hp.
-      * intros s0 t0. unfold upd. destruct (Z.eqb_spec s0 s); [discriminate|hp Hp].
+    + (* DropSession: as Rollback *)
+      constructor; try assumption; clear Hnb Heb Cn Ce Sn Se; cbn [step spec_step] in *.
+      * intros s0. destruct (sess st s) as [t|] eqn:Hs.
+        -- unfold tm_abort. cbn. destruct (tm_state st t) as [[]|]; cbn; unfold upd;
+             (destruct (Z.eqb_spec s0 s); [tauto|hp Hp]).
+        -- cbn. unfold upd. destruct (Z.eqb_spec s0 s); [subst; tauto|hp Hp].
+      * destruct (sess st s) as [t|] eqn:Hs; cbn.
+        -- unfold tm_abort. cbn. destruct (tm_state st t) as [[]|]; cbn; hp Hp.
+        -- hp Hp.
+      * intros s0 t0. destruct (sess st s) as [t|] eqn:Hs.
+        -- unfold tm_abort. cbn. destruct (tm_state st t) as [[]|]; cbn; unfold upd;
+             (destruct (Z.eqb_spec s0 s); [discriminate|]); intros H0;
+             destruct (pa_buf _ _ Hp s0 t0 H0) as [d0 [log0 [W1 W2]]]; exists d0, log0; (split; [exact W1|]);
+             (destruct (Z.eqb_spec t0 t); [subst; exfalso; apply n; eapply i_inj; eauto|exact W2]).
+        -- cbn. unfold upd. intros H0. destruct (Z.eqb_spec s0 s); [subst; congruence|]. apply (pa_buf _ _ Hp). exact H0.
     + (* InsertTriple *)
       rename t into tr. constructor; try assumption; clear Hnb Heb Cn Ce Sn Se; cbn [step spec_step op_session] in *.
       * intros s0. destruct (sess st s) as [t|] eqn:Hs.
@@ -598,20 +609,11 @@ Proof.
         try reflexivity; destruct (MEv st (tm_epoch st) SYSTEM x); discriminate. }
     rewrite F1, F2. apply out_eqb_refl.
   - (* FreshLabelScan *)
-    pose proof (first_class_zero _ _ Hc) as Hz. unfold scan, nodes_by_label, label_ids_of. rewrite filter_filter.
-    assert (F : filter (fun n => memz n (l_index st l) && c_visible_to (n_chain st n) 0 SYSTEM) (range (n_next st))
-                = filter (fun n => has_label (s_comm sp) n l) (range (n_next st))).
-    { apply filter_ext_in'. intros n Hr. specialize (Hz n Hr). cbn beta zeta in Hz. unfold Mv in Hz.
-      destruct (Bool.eqb (memz n (l_index st l) && c_visible_to (n_chain st n) 0 SYSTEM) (has_label (s_comm sp) n l)) eqn:E.
-      - apply bool_eqb_eq. exact E.
-      - exfalso.
-        destruct (scan_class st (s_comm sp) (tm_epoch st) SYSTEM (SelLabel l) n =? 0) eqn:E2; [discriminate|].
-        apply Z.eqb_neq in E2. contradiction. }
-    rewrite F, isort_ids. apply out_eqb_refl.
+    rewrite (scan_eq _ _ _ _ _ Hc). cbn [sp_match]. unfold label_ids_of. rewrite isort_ids. apply out_eqb_refl.
 Qed.
 
 (** ** every class is a number in 0..6 *)
-Definition okc (c : Z) : Prop := 0 <= c <= 7.
+Definition okc (c : Z) : Prop := 0 <= c <= 6.
 Lemma first_class_okc : forall f l, (forall x, okc (f x)) -> okc (first_class f l).
 Proof.
   intros f l H. induction l as [|x r IH]; cbn [first_class]; [unfold okc; lia|].
@@ -662,11 +664,6 @@ Proof.
       repeat match goal with |- context [if ?b then _ else _] => destruct b end; lia.
     + apply first_class_okc. intros n. unfold okc.
       repeat match goal with |- context [if ?b then _ else _] => destruct b end; lia.
-  - (* FreshLabelScan *)
-    apply first_class_okc. intros n. cbn zeta.
-    destruct (Bool.eqb _ _); [unfold okc; lia|].
-    pose proof (scan_class_okc st (s_comm sp) (tm_epoch st) SYSTEM (SelLabel l) n) as Ho.
-    destruct (scan_class st (s_comm sp) (tm_epoch st) SYSTEM (SelLabel l) n =? 0); [unfold okc; lia|exact Ho].
 Qed.
 
 Lemma mut_class_okc : forall st sp o, okc (mut_class st sp o).
